@@ -1391,9 +1391,10 @@ pub mod gen {
             "C01" => gen_c01(rng),
             "C12" => {
                 // extension-bearing fragmented PDUs (label possibly substituted) take another CRC call site
-                match rng.below(6) {
+                match rng.below(7) {
                     0 | 1 => gen_c13(rng),
                     2 => gen_c07(rng, u64::MAX), // several streams, restarts on the same id with other metadata
+                    3 => gen_c04(rng, false),    // re-use configuration changes (bounded re-use) around fragmented PDUs
                     _ => gen_c02(rng, target),
                 }
             }
@@ -1794,10 +1795,12 @@ pub mod gen {
             };
             let (fid, len, _nfrag, lab, pt, seed) = streams[s];
             if !started[s] {
-                // first fragment: carries a share of the payload
+                // first fragment: carries a share of the payload; a sixth of the streams carry optional extensions
                 let share = (len / streams[s].2).max(1);
-                let buf = 7 + lab.len() + share;
-                ops.push(submit(len, seed, pt, &lab, fid, buf, &[]));
+                let exts: Vec<(u16, Vec<u8>)> = if seed % 6 == 0 { vec![(0x0200 | (seed >> 8) as u16 & 0xFF, vec![(seed >> 16) as u8, (seed >> 24) as u8]), (0x0100 | (seed >> 32) as u16 & 0xFF, vec![])] } else { vec![] };
+                let extlen: usize = exts.iter().map(|e| e.1.len() + 2).sum();
+                let buf = 7 + lab.len() + extlen + share;
+                ops.push(submit(len, seed, pt, &lab, fid, buf, &exts));
                 started[s] = true;
                 rem[s] = len - share.min(len);
                 order_in_flights.push(s);
